@@ -849,6 +849,28 @@ def optional_structs(tier):
     return out
 
 
+def selfoverlap_structs(tier):
+    """C16 only: range lists that name a bit twice. The macro accepts them (no builder is offered); no property fixes the values they
+    read or write, but C16 still demands that no operation panics and that every profile computes the same thing."""
+    out = []
+    for n in (8, 12, 16, 32, 64, 128) if tier == 'quick' else (4, 8, 9, 12, 16, 24, 32, 33, 64, 65, 100, 128):
+        lists = [[(n - 4, 4), (n - 2, 2)], [(n - 2, 2), (n - 4, 4)], [(0, 4), (2, 4)] if n >= 6 else [(0, 2), (1, 2)], [(n - 3, 3), (n - 3, 3)],
+                 [(0, 2), (n - 2, 2), (n - 3, 2)], [(n - 1, 1), (n - 1, 1), (n - 1, 1)], [(0, n), (n - 1, 1)] if n < 128 else [(0, 64), (32, 64)]]
+        fs = []
+        for rl in lists:
+            w = sum(l for _, l in rl)
+            if w > n or any(lo < 0 for lo, _ in rl):
+                continue            # a value wider than the base is rejected by the macro (not an accepted declaration)
+            for kd in L.kinds_multi(w):
+                fs.append(Field(list(rl), kd, family='SELFOV'))
+        out += L.pack(n, fs, 'SELFOV', per=1, passes=[('full', 'full')] if n <= 16 else [('alpha', 'alpha')], options=False)
+        # arrays whose elements overlap each other (stride smaller than the element) are rejected by the macro; arrays of self-overlapping
+        # elements are not
+        if n >= 16:
+            out += L.pack(n, [Field([(0, 3), (1, 3)], 'u', arr=(2, 8), family='SELFOV')], 'SELFOV', per=1, passes=[('full', 'full')] if n <= 16 else [('alpha', 'alpha')], options=False)
+    return out
+
+
 def signed_builder_structs():
     """C05: signed fields written through the builder"""
     out = []
